@@ -36,7 +36,7 @@ const (
 	// response trailers (a second response HEADERS) on a stream without test name
 	c15GenUnnamedTrailers = false
 	// (c15-bytes only) response-direction DATA on a stream before its response HEADERS
-	c15GenDataBeforeResponseHeaders = true
+	c15GenDataBeforeResponseHeaders = false
 )
 
 func init() {
